@@ -66,8 +66,8 @@ def encode : SKey → Bytes
   | .dst g d s eid l => joinNul [bytesOf "d", bytesOf g, bytesOf d, bytesOf s, bytesOf eid, bytesOf l, [1]]
   | .graph g => joinNul [bytesOf "g", bytesOf g]
   | .field f => joinNul [bytesOf "f", bytesOf f]
-  | .term f t => joinNul [bytesOf "t", bytesOf f, [83], bytesOf t]
-  | .entry f t doc => joinNul [bytesOf "i", bytesOf f, [83], bytesOf t, bytesOf doc]
+  | .term f t => joinNul [bytesOf "t", bytesOf f, [1], bytesOf t]
+  | .entry f t doc => joinNul [bytesOf "i", bytesOf f, [1], bytesOf t, bytesOf doc]
   | .doc d => joinNul [bytesOf "D", bytesOf d]
 
 def bytesLt : Bytes → Bytes → Bool
